@@ -86,6 +86,7 @@ type SessSpec struct {
 	RebalanceDelayMs int             `json:"rebalance_delay_ms,omitempty"`
 	RollbackMitigation bool          `json:"rollback_mitigation,omitempty"`
 	HealthCheck bool                 `json:"health_check,omitempty"`
+	HCTimeoutMs int                  `json:"hc_timeout_ms,omitempty"`
 	Highs      map[int]uint64        `json:"highs,omitempty"`       // scripted vBucket high seqnos (synthetic, no items needed)
 	CollHighs  map[int]uint64        `json:"coll_highs,omitempty"`  // scripted high seqno of the configured collections per vBucket
 	Corrupt    []int                 `json:"corrupt,omitempty"`     // vBuckets whose stored checkpoint xattr is not valid JSON (couchbase back end)
@@ -162,10 +163,23 @@ type Trace struct {
 	BarrierTimeouts int
 	Cfg *config.Dcp
 	Checks []*StoreCheck
+	Post   *PostClose
+	CloseHangStacks []string
 	Reads  []*Read
 	Metrics []*MetricScrape
 	APIPort int
 	readMu sync.Mutex
+}
+
+// PostClose is what was observed after Start() returned following a Close().
+type PostClose struct {
+	TCloseCall  int64
+	TStartRet   int64
+	Returned    bool
+	Store       map[int][4]uint64
+	RxAfter     []string // requests the simulated node received later than the grace period after Start() returned
+	OpenConns   int
+	DeliverAfter int
 }
 
 // StoreCheck is one barrier comparison point (C05/C13): after a barrier an explicit Commit() is issued and
@@ -224,6 +238,7 @@ type session struct {
 	tr      *Trace
 	rng     *rand.Rand
 	ehHolds     []chan struct{}
+	consHold    chan struct{}
 	stopReaders []chan struct{}
 	readerWG    sync.WaitGroup
 }
@@ -469,6 +484,10 @@ func RunSession(spec *SessSpec) *Trace {
 	if spec.Membership == "dynamic" {
 		cfg.Dcp.Group.Membership.Type = "dynamic"
 	}
+	if spec.Membership == "couchbase" {
+		cfg.Dcp.Group.Membership.Type = "couchbase"
+		cfg.Dcp.Group.Membership.Config = map[string]string{"heartbeatInterval": "20ms", "monitorInterval": "20ms", "heartbeatToleranceDuration": "3s", "timeout": "2s", "expirySeconds": "10"}
+	}
 	if spec.RebalanceDelayMs > 0 {
 		cfg.Dcp.Group.Membership.RebalanceDelay = time.Duration(spec.RebalanceDelayMs) * time.Millisecond
 	}
@@ -479,11 +498,21 @@ func RunSession(spec *SessSpec) *Trace {
 		cfg.HealthCheck.Disabled = false
 		cfg.HealthCheck.Interval = 20 * time.Millisecond
 		cfg.HealthCheck.Timeout = 2 * time.Second
+		if spec.HCTimeoutMs > 0 {
+			cfg.HealthCheck.Timeout = time.Duration(spec.HCTimeoutMs) * time.Millisecond
+		}
 	}
 	tr.Cfg = cfg
 	cons := &hx.Consumer{Log: env.Log}
 	s.cons = cons
 	cons.OnEvent = func(d *hx.Delivered) {
+		s.pmu.Lock()
+		ch := s.consHold
+		s.pmu.Unlock()
+		if ch != nil {
+			env.Log.Add(evlog.Rec{K: "cons.blocked", VB: int(d.VB), Seq: d.Seq})
+			<-ch
+		}
 		if spec.SlowConsUs > 0 {
 			time.Sleep(time.Duration(spec.SlowConsUs) * time.Microsecond)
 		}
@@ -779,6 +808,87 @@ func RunSession(spec *SessSpec) *Trace {
 			w0 := s.writeCount()
 			full.Commit()
 			env.Log.Add(evlog.Rec{K: "ctl.absorbedcommit", VB: -1, A: uint64(s.writeCount() - w0)})
+		case "failpings": // mgmt pings fail from now on (health check rounds start failing)
+			env.Sim.HTTPHook = func(path string) (int, []byte, bool, bool) {
+				if path == "/" {
+					env.Log.Add(evlog.Rec{K: "sim.pingfail", VB: -1})
+					return 500, []byte("down"), true, false
+				}
+				return 0, nil, false, false
+			}
+		case "waitpingfail":
+			hx.WaitFor(8*time.Second, func() bool { return env.Log.Count("sim.pingfail") >= 1 })
+		case "persistbelow": // replicas report a persisted seqno below what the vBucket holds: newer events wait in rollback mitigation
+			env.Sim.SetObserve(uint16(st.VB), 0, env.Sim.FailoverCopy(uint16(st.VB))[0].UUID, uint64(st.N))
+		case "holdcons": // the next delivery blocks inside ConsumeEvent until "releasecons"
+			s.pmu.Lock()
+			s.consHold = make(chan struct{})
+			s.pmu.Unlock()
+		case "waitblocked":
+			hx.WaitFor(8*time.Second, func() bool { return env.Log.Count("cons.blocked") >= st.N })
+		case "releasecons":
+			s.pmu.Lock()
+			if s.consHold != nil {
+				close(s.consHold)
+				s.consHold = nil
+			}
+			s.pmu.Unlock()
+		case "waiteh": // wait for a lifecycle callback
+			name := st.Sel
+			want := st.N
+			if want == 0 {
+				want = 1
+			}
+			hx.WaitFor(10*time.Second, func() bool { return env.Log.Count("eh."+name) >= want })
+		case "waitsave":
+			hx.WaitFor(8*time.Second, func() bool { return env.Log.Count("md.save.call") > env.Log.Count("md.save.ret") })
+		case "closeasync":
+			tr.Post = &PostClose{}
+			tr.Post.TCloseCall = evlog.Tick()
+			go func() {
+				env.Log.Add(evlog.Rec{K: "ctl.close.call", VB: -1})
+				full.D.Close()
+				env.Log.Add(evlog.Rec{K: "ctl.close.ret", VB: -1})
+			}()
+		case "waitclose":
+			if tr.Post == nil {
+				tr.Post = &PostClose{TCloseCall: evlog.Tick()}
+				go func() {
+					env.Log.Add(evlog.Rec{K: "ctl.close.call", VB: -1})
+					full.D.Close()
+					env.Log.Add(evlog.Rec{K: "ctl.close.ret", VB: -1})
+				}()
+			}
+			to := time.Duration(st.Ms) * time.Millisecond
+			if to == 0 {
+				to = 30 * time.Second
+			}
+			tr.Post.Returned = full.WaitStartReturn(to)
+			tr.CloseOK = tr.Post.Returned
+			closed = true
+			if !tr.Post.Returned {
+				if hang, stacks := hx.ConfirmHang(env.Log, 2*time.Second); hang {
+					tr.CloseHangStacks = stacks
+				} else {
+					tr.Notes = append(tr.Notes, "close slow but not hung")
+				}
+			} else {
+				tr.Post.TStartRet = evlog.Tick()
+				tr.Post.Store = s.readStore()
+				// grace: three of the longest configured intervals, then the wire must be silent
+				time.Sleep(150 * time.Millisecond)
+				tg := evlog.Tick()
+				time.Sleep(350 * time.Millisecond)
+				for _, r := range env.Log.Snapshot() {
+					if r.T > tg && r.K == "sim.rx" {
+						tr.Post.RxAfter = append(tr.Post.RxAfter, fmt.Sprintf("op=0x%02x vb=%d key=%q conn=%d", r.Op, r.VB, r.S, r.Cn))
+					}
+					if r.T > tr.Post.TStartRet && r.K == "cons.deliver.call" {
+						tr.Post.DeliverAfter++
+					}
+				}
+				tr.Post.OpenConns = env.Sim.OpenConns()
+			}
 		case "waitcommits":
 			hx.WaitFor(10*time.Second, func() bool { return env.Log.Count("ctl.commit.call") == env.Log.Count("ctl.commit.ret") })
 		case "close":
@@ -793,6 +903,16 @@ func RunSession(spec *SessSpec) *Trace {
 		close(c)
 	}
 	s.readerWG.Wait()
+	s.pmu.Lock()
+	if s.consHold != nil {
+		close(s.consHold)
+		s.consHold = nil
+	}
+	if s.holdCh != nil {
+		close(s.holdCh)
+		s.holdCh = nil
+	}
+	s.pmu.Unlock()
 	for _, n := range []string{"BRS", "ARS", "BRE", "ARE", "BSStart", "ASStart", "BSS", "ASS"} {
 		full.EH.SetHold(n, nil)
 	}
